@@ -383,6 +383,31 @@ def run(report, p):
                 f.rule = rr.id
             report.rules.append(rr)
 
+    # ------------------------------------------------------------------ R6.9
+    r9 = report.rule(
+        "R6.9",
+        "who may fill the in-memory chain: generations are appended to a chain object only by the chain readers while they parse the chain file - nothing on the way "
+        "to write_chain adds entries (write_chain emits every loaded entry plus exactly ONE for the new manifest; an entry `completed` in memory for a manifest "
+        "that an interrupted run left unlisted makes the next create append two entries at once)",
+        2,
+    )
+    for fq, f in sorted(p.funcs.items()):
+        if not f.module.name.startswith("ascmhl") or f.module.name in unshipped_modules(p):
+            continue
+        for n in walk_no_nested(f.node):
+            hit = None
+            if isinstance(n, ast.Call) and isinstance(n.func, ast.Attribute) and n.func.attr == "append_generation":
+                hit = n
+            elif isinstance(n, ast.Call) and isinstance(n.func, ast.Attribute) and n.func.attr in ("append", "extend", "insert", "pop", "remove", "clear", "sort", "reverse") and isinstance(n.func.value, ast.Attribute) and n.func.value.attr == "generations":
+                hit = n
+            elif isinstance(n, (ast.Assign, ast.AugAssign)) and any(isinstance(t, ast.Attribute) and t.attr == "generations" for t in (n.targets if isinstance(n, ast.Assign) else [n.target])):
+                hit = n
+            if hit is None:
+                continue
+            r9.instance(f, hit, f"{f.qual.split('.')[-2] if f.cls else f.module.name.split('.')[-1]}.{f.name}: {norm(hit)[:50]}")
+            allowed = f.module.name.endswith(("chain_xml_parser", "chain_txt_parser", ".chain")) and (f.name in ("parse", "__init__", "append_generation") or f.name.startswith(("parse", "_parse", "read")))
+            r9.check(allowed, f, hit, f"`{norm(hit)[:60]}` in {f.name} changes the list of generations of a chain object outside the chain reader: what write_chain then emits is no longer [the entries of the chain file] + [one entry for the new manifest] - e.g. an entry added for a manifest that an interrupted run left unlisted gives the next create a chain that grows by two entries", construct=f"{f.name}: chain generations modified outside the reader")
+
     include_rules(report, p, 'c08', ['R8.2'], "every history a run touches gets exactly one new manifest: a history that the root's mapping does not know (nested three levels or deeper) is left without a generation, its files are recorded one level up")
     include_rules(report, p, 'c13', ['R13.7'], 'the <folder> part of NNNN_<folder>_<time>Z.mhl is the name of the root folder, whatever the spelling of the root (., x/., trailing separator)')
     include_rules(report, p, 'c08', ['R8.6'], 'exactly one new manifest and chain entry per touched history: the commit loop writes every history that received records or references, and skips only the others')
